@@ -56,7 +56,15 @@ def analyse(crate, errs):
                     else:
                         yield "bad", key, "iterator of %s collected into %s: errors are stored, not propagated" % (it, dt), c.where()
                 elif m in ITER_OK:
-                    yield "ok", key, ITER_OK[m], c.where()
+                    # an adapter handed a function that forgets the error (`map_while(Result::ok)`, `filter_map(Result::ok)`)
+                    forget = [a["fn"].get("path", "") for a in c.args if isinstance(a, dict) and a.get("k") == "const" and "fn" in a
+                              and a["fn"].get("path", "").rsplit("::", 1)[-1] in ("ok", "unwrap_or_default", "is_ok", "is_err", "unwrap_or")
+                              and "Result" in a["fn"].get("path", "")]
+                    if forget:
+                        yield ("bad", key, "Iterator::%s(%s) over an iterator whose Item is %s: the adapter turns every error into "
+                                           "`None` / a default, so a failure ends or thins the sequence silently" % (m, forget[0], it), c.where())
+                    else:
+                        yield "ok", key, ITER_OK[m], c.where()
                 else:
                     yield ("bad", key,
                            "Iterator::%s consumes an iterator whose Item is %s without short-circuiting: every error but "
